@@ -100,6 +100,16 @@ func (p *tplanApply) PlanChanges(ctx context.Context, name string, changes []sch
 			Transactional: false,
 		},
 	}
+	// The changes are planned one by one below. Hence, the
+	// scope of the whole changeset is checked here.
+	for _, o := range opts {
+		o(&s.PlanOptions)
+	}
+	if s.SchemaQualifier != nil {
+		if err := sqlx.CheckChangesScope(s.PlanOptions, planned); err != nil {
+			return nil, err
+		}
+	}
 	for _, c := range planned {
 		// Use the planner of MySQL with each "atomic" change.
 		plan, err := p.planApply.PlanChanges(ctx, name, []schema.Change{c}, opts...)
